@@ -129,6 +129,9 @@ pub enum Op {
     Restart { from: u8, which: usize, scale: bool },
     /// 0 chemical potential, 1 total moles from profile, 2 moles from profile
     Spec { kind: u8 },
+    /// pores: move to another bulk state (density scaled by `f`), keeping the density profile
+    /// as the initial guess (PoreProfile::update_bulk, the restart path of the isotherm drivers)
+    UpdateBulk { f: f64 },
 }
 
 #[derive(Serialize, Deserialize, Clone, Debug)]
@@ -213,6 +216,21 @@ fn density_bits(p: &feos_dft::DFTProfile<ndarray::Ix1, F>) -> Vec<u64> {
 }
 
 fn build(sc: &Scenario) -> Result<Obj, String> {
+    build_with_bulk(sc, 1.0)
+}
+
+fn bulk_state(sc: &Scenario, bulk_factor: f64) -> Result<State<F>, String> {
+    let sys = &pool().systems[sc.system % pool().systems.len()];
+    let Kind::Pore { tf_bulk, rho_f, .. } = &sc.kind else { return Err("not a pore".into()) };
+    let moles = match sys.binary_x {
+        None => arr1(&[1.0]) * MOL,
+        Some(x) => arr1(&[x, 1.0 - x]) * MOL,
+    };
+    let rho = Density::from_reduced(rho_f * bulk_factor * sys.rhoc);
+    State::new_nvt(&sys.func, tf_bulk * sys.tc * KELVIN, moles.sum() / rho, &moles).map_err(|e| format!("bulk: {e}"))
+}
+
+fn build_with_bulk(sc: &Scenario, bulk_factor: f64) -> Result<Obj, String> {
     let sys = &pool().systems[sc.system % pool().systems.len()];
     match &sc.kind {
         Kind::Interface { pdgt_init, l_grid } => {
@@ -242,13 +260,8 @@ fn build(sc: &Scenario) -> Result<Obj, String> {
                 1 => Geometry::Cylindrical,
                 _ => Geometry::Spherical,
             };
-            let moles = match sys.binary_x {
-                None => arr1(&[1.0]) * MOL,
-                Some(x) => arr1(&[x, 1.0 - x]) * MOL,
-            };
-            let rho = Density::from_reduced(rho_f * sys.rhoc);
-            let bulk = State::new_nvt(&sys.func, tf_bulk * sys.tc * KELVIN, moles.sum() / rho, &moles)
-                .map_err(|e| format!("bulk: {e}"))?;
+            let _ = (tf_bulk, rho_f);
+            let bulk = bulk_state(sc, bulk_factor)?;
             Pore1D::new(
                 geometry,
                 *size * ANGSTROM,
@@ -275,13 +288,13 @@ impl Sys {
     }
 }
 
-fn reference(sc: &Scenario) -> Option<RefObs> {
-    let key = format!("{}|{:?}|{}|{}", sc.system, sc.kind, sc.tf, sc.n_grid);
+fn reference(sc: &Scenario, bulk_factor: f64) -> Option<RefObs> {
+    let key = format!("{}|{:?}|{}|{}|{}", sc.system, sc.kind, sc.tf, sc.n_grid, bulk_factor);
     if let Some(v) = pool().memo.lock().unwrap().get(&key) {
         return v.clone();
     }
     // one-shot reference: default solver from the canonical initial profile
-    let v = build(sc).ok().and_then(|mut o| {
+    let v = build_with_bulk(sc, bulk_factor).ok().and_then(|mut o| {
         o.solve(None, false).ok()?;
         o.observable()
     });
@@ -319,7 +332,8 @@ fn execute(sc: &Scenario) -> RunOutcome {
         }
     };
     let initial_density = obj.profile().density.clone();
-    let initial_bulk = obj.profile().bulk.partial_density.to_reduced();
+    let mut initial_bulk = obj.profile().bulk.partial_density.to_reduced();
+    let mut bulk_factor = 1.0f64;
     let mut snapshots: Vec<Density<Array2<f64>>> = Vec::new();
     let mut frozen: Vec<(Obj, Vec<u64>)> = Vec::new();
     let mut spec_kind = 0u8;
@@ -459,7 +473,7 @@ fn execute(sc: &Scenario) -> RunOutcome {
                                     out.count("probe.interface_left_the_box", 1);
                                 } else if !same_bulk {
                                     out.count("probe.bulk_moved_by_particle_number_spec", 1);
-                                } else if let (Some(o), Some(r)) = (obj.observable(), reference(sc)) {
+                                } else if let (Some(o), Some(r)) = (obj.observable(), reference(sc, bulk_factor)) {
                                     let mut d = deviation(o.a, r.a, 1e-300);
                                     for (a, b) in o.n.iter().zip(&r.n) {
                                         d = d.max(deviation(*a, *b, 1e-300));
@@ -517,6 +531,19 @@ fn execute(sc: &Scenario) -> RunOutcome {
                     Obj::Pore(p) => p.profile.density = init,
                 }
                 out.count("op.restart", 1);
+            }
+            Op::UpdateBulk { f } => {
+                if let Obj::Pore(p) = obj {
+                    match bulk_state(sc, *f) {
+                        Ok(b) => {
+                            obj = Obj::Pore(Box::new(p.update_bulk(&b)));
+                            bulk_factor = *f;
+                            initial_bulk = obj.profile().bulk.partial_density.to_reduced();
+                            out.count("op.update_bulk", 1);
+                        }
+                        Err(_) => obj = Obj::Pore(p),
+                    }
+                }
             }
             Op::Spec { kind } => {
                 spec_kind = *kind;
@@ -643,6 +670,8 @@ impl Engine for C18 {
                 Op::Solve { chain, debug: rng.chance(0.2) }
             } else if r == 6 {
                 Op::Branch
+            } else if r == 7 && pore {
+                Op::UpdateBulk { f: *rng.pick(&[0.5, 0.8, 1.0, 1.25, 2.0]) }
             } else if r < 9 {
                 Op::Restart { from: rng.below(2) as u8, which: rng.below(16), scale: rng.chance(0.3) }
             } else {
